@@ -100,6 +100,10 @@ var vhC18Tpl = []string{
 	"{% set s = xs|sort %}{% set r = s|reverse %}{% set q = s|merge(['zz'])|sort %}{% set t = s|slice(0, 2) %}{% set u = t|merge(['0'])|sort %}[{{ s|join(',') }}][{{ r|join(',') }}][{{ t|join(',') }}]",
 	"{% apply upper %}{{ xs|join(',') }}{% endapply %}{% spaceless %}<a> {{ m.a }} </a>{% endspaceless %}{% set n1 = nest[1] %}{{ n1.k|sort|join(',') }}{{ n1|merge({'k': 1})|length }}",
 	"{{ xs|sort|reverse|slice(0, 2)|merge(xs)|sort|join(',') }}{{ m|merge(m)|keys|join(',') }}{{ xs|join(',')|split(',')|sort|join(',') }}",
+	// filter chains whose first links hand the caller's own nested data through (first, last, default, raw, attribute, index)
+	"{{ nest|first|sort|join(',') }}{{ nest|first|reverse|join(',') }}{{ nest|last|keys|join(',') }}{{ nosuch|default(xs)|reverse|join(',') }}{{ xs|raw|reverse|first }}",
+	"{{ m.k|default([])|sort|join(',') }}{{ st.C|default([])|reverse|join(',') }}{% set r = nest|first|sort %}{{ r|join(',') }}{% if nest|first|sort|first == 1 %}y{% endif %}{{ [xs]|first|reverse|join(',') }}{{ {'q': xs}|first|sort|join(',') }}",
+	"{% for v in nest|first|reverse %}{{ v }}{% endfor %}{% for v in xs|default([])|sort %}{{ v }}{% endfor %}{{ nest|first|sort|reverse|first }}{{ ss|default([])|sort|join(',') }}{{ is|default([])|reverse|join(',') }}",
 	// every construct that binds a name, binding the name of a map, list or struct the caller passed
 	"{% import 'lib' as m %}{{ m.f(1) }}{% import 'lib' as xs %}{{ xs.f(2) }}{% import 'lib' as st %}{% import 'lib' as mi %}",
 	"{% from 'lib' import f as m %}{{ m(1) }}{% from 'lib' import f as xs, g as nest %}{{ xs(2) }}{{ nest() }}",
